@@ -553,8 +553,10 @@ func c14SamePw(scheme, supplied, set string) bool {
 // any other goroutine pass straight through.
 
 type c14Gate struct {
-	entered, release chan struct{}
+	entered, release chan struct{} // the login is held / may go on
+	inVerify         chan struct{} // the login has reached its own hash verification
 	eOnce, rOnce     sync.Once
+	vOnce            sync.Once
 	atLookup         bool // hold the login as soon as it has read its row (else: when it enters the hash verification)
 }
 
@@ -571,17 +573,9 @@ func c14LookupGate() {
 }
 
 func c14NewGate() *c14Gate {
-	return &c14Gate{entered: make(chan struct{}), release: make(chan struct{})}
+	return &c14Gate{entered: make(chan struct{}), release: make(chan struct{}), inVerify: make(chan struct{})}
 }
 func (g *c14Gate) open() { g.rOnce.Do(func() { close(g.release) }) }
-func (g *c14Gate) isEntered() bool {
-	select {
-	case <-g.entered:
-		return true
-	default:
-		return false
-	}
-}
 
 var (
 	c14Gates       sync.Map // goroutine id -> *c14Gate
@@ -610,7 +604,9 @@ func c14InstallGates() {
 			f := f
 			HashVerify[algo] = func(pass, hashSalt string) error {
 				if g, ok := c14Gates.Load(c14Goid()); ok {
-					g.(*c14Gate).hold()
+					gate := g.(*c14Gate)
+					gate.vOnce.Do(func() { close(gate.inVerify) })
+					gate.hold()
 				}
 				return f(pass, hashSalt)
 			}
@@ -885,13 +881,16 @@ func c14RunScn(scn *c14Scn) (res c14Result) {
 				obs = append(obs, "no-login")
 				continue
 			}
-			bound := c14HardTimeout
-			if !pl.gate.isEntered() {
-				select {
-				case <-pl.done:
-				default:
-					bound = 50 * time.Millisecond // not at its verification: it may be waiting for a login that is released later
-				}
+			// a login inside its OWN verification returns once it is released; one that is anywhere else (it read its row
+			// and has not started to verify, or it never showed up) may be waiting for a login that is released later:
+			// give it a moment, then go on with the schedule — its verdict is collected when it comes
+			pl.gate.open()
+			bound := 50 * time.Millisecond
+			select {
+			case <-pl.done:
+			case <-pl.gate.inVerify:
+				bound = c14HardTimeout
+			case <-time.After(bound):
 			}
 			if finish(pl, bound) {
 				obs = append(obs, settle(pl))
@@ -1375,6 +1374,17 @@ func c14Gen(r *vh.Rng, maxOps int) *c14Scn {
 	authCreds := func() (string, string) {
 		ks := curKeys()
 		x := r.Intn(100)
+		if pair != nil && r.Chance(22) { // one member of the pair with the password of the other
+			a, okA := c14Account(pair[0])
+			b, okB := c14Account(pair[1])
+			if r.Bool() {
+				a, b = b, a
+			}
+			if q, has := cur[b]; okA && okB && has && len(reach[a]) > 0 && !strings.Contains(q, "\x00") {
+				scn.genStats = append(scn.genStats, "auth.pair-member-with-the-other-password")
+				return reach[a][r.Intn(len(reach[a]))], q
+			}
+		}
 		if len(ks) > 0 && x < 75 {
 			k := ks[r.Intn(len(ks))]
 			u := reach[k][r.Intn(len(reach[k]))]
